@@ -83,10 +83,21 @@ def _products(d, S_T, s0, rng):
         add("LogSpot/Forward", U.LogSpot, lambda: P.Forward(strike=math.log(k)))
         lv1 = -float(rng.choice([0.05, 0.2, 0.5, 0.9]))
         add("DefaultTime/OnTheFly", lambda: U.DefaultTime(lv1), lambda: P.PayoffOnTheFly(lambda t: t))
+        add("DefaultTime/CDS", lambda: U.DefaultTime(lv1), lambda: P.CDS(recovery_rate=0.4, spread=0.02, maturity=T, discounting=lambda t: math.exp(-0.03 * t)))
     else:
         add("Performances/Rainbow", lambda: U.Performances(list(s0)), lambda: P.Rainbow(weights=list(np.linspace(1, 2, d) / np.sum(np.linspace(1, 2, d))), strike=1.0, payoff_type=P.PayoffType.CALL))
         thr = list(S_T * rng.uniform(0.7, 1.3, size=d))
         add("Indicators/OnTheFly", lambda: U.Indicators(thr), lambda: P.PayoffOnTheFly(lambda x: float(np.sum(x))))
+        # rate payoffs on the vector of terminal values (pure functions of it)
+        dl = np.full(d, 0.5)
+        r0 = np.asarray(s0, dtype=float) / (np.max(s0) * 10.0)
+        rates_scale = 1.0 / (np.max(s0) * 10.0)
+        add("Libors/Bond", U.Libors, lambda: P.Bond(underlying_rates=r0, deltas=dl), notional=rates_scale)
+        add("Libors/Cap", U.Libors, lambda: P.Cap(underlying_rates=r0, deltas=dl, strike=float(np.mean(S_T))))
+        add("Libors/Ratchet", U.Libors, lambda: P.Ratchet(deltas=dl, funding_gearing=0.8, funding_margin=0.01, structured_spread=0.02,
+                                                          structured_increment=0.05, first_rate=float(S_T[0])))
+        add("Libors/SwaptionPayer", U.Libors, lambda: P.Swaption(underlying_rates=r0, deltas=dl, strike=float(np.mean(S_T)), swaption_type=P.SwaptionType.PAYER))
+        add("Libors/SwaptionReceiver", U.Libors, lambda: P.Swaption(underlying_rates=r0, deltas=dl, strike=float(np.mean(S_T)), swaption_type=P.SwaptionType.RECEIVER))
         # default times of several names: a name that defaulted on an earlier path must not be remembered on the next one
         lv = [-float(rng.choice([0.05, 0.2, 0.5, 0.9])) for _ in range(d)]
         for nth in range(1, d + 1):
